@@ -557,20 +557,18 @@ class HTMLBinaryInputStream(HTMLUnicodeInputStream):
         encoding otherwise return None"""
         bomDict = {
             codecs.BOM_UTF8: 'utf-8',
-            codecs.BOM_UTF16_LE: 'utf-16le', codecs.BOM_UTF16_BE: 'utf-16be',
-            codecs.BOM_UTF32_LE: 'utf-32le', codecs.BOM_UTF32_BE: 'utf-32be'
+            codecs.BOM_UTF16_LE: 'utf-16le', codecs.BOM_UTF16_BE: 'utf-16be'
         }
 
         # Go to beginning of file and read in 4 bytes
         string = self._readPrefix(4)
 
-        # Try detecting the BOM using bytes from the string
-        # (UTF-32 needs to be detected before UTF-16)
+        # Try detecting the BOM using bytes from the string.  UTF-32 is not
+        # a supported encoding, so FF FE 00 00 is a UTF-16LE BOM followed by
+        # U+0000 and not a UTF-32LE BOM
         encoding = None
         seek = 0
-        for bom in (codecs.BOM_UTF8,
-                    codecs.BOM_UTF32_LE, codecs.BOM_UTF32_BE,
-                    codecs.BOM_UTF16_LE, codecs.BOM_UTF16_BE):
+        for bom in (codecs.BOM_UTF8, codecs.BOM_UTF16_LE, codecs.BOM_UTF16_BE):
             if string.startswith(bom):
                 encoding = bomDict[bom]
                 seek = len(bom)
